@@ -326,3 +326,136 @@ func ruleOverflowSigns(c *Ctx) {
 		}
 	}
 }
+
+// ---------------------------------------------------------------- R-overflow-checked
+
+const textOverflowChecked = "R-overflow-checked: a signed 64-bit addition of two numbers that both come from outside (a stored counter parsed from text, an increment from the command line) is tested for overflow before its result is used as a value: the sum takes part in a comparison with one of its addends (the idiom of R-overflow-idiom) or in a sign test together with them (R-overflow-signs). Index and size arithmetic is not meant (A8 bounds it); only sums of int64 type"
+
+func ruleOverflowChecked(c *Ctx) {
+	c.S.Rule("R-overflow-checked", textOverflowChecked, 1)
+	m := c.a8()
+	n := 0
+	for _, fn := range c.SrcFuncs() {
+		if a8OutOfScope(c, fn) != "" {
+			continue
+		}
+		k := 0
+		for _, in := range instrsOf(fn) {
+			add, ok := in.(*ssa.BinOp)
+			if !ok || add.Op != token.ADD {
+				continue
+			}
+			bt, ok := add.Type().Underlying().(*types.Basic)
+			if !ok || bt.Kind() != types.Int64 {
+				continue
+			}
+			if !m.tainted[add.X] || !m.tainted[add.Y] {
+				continue
+			}
+			if _, isC := add.X.(*ssa.Const); isC {
+				continue
+			}
+			if _, isC := add.Y.(*ssa.Const); isC {
+				continue
+			}
+			k++
+			n++
+			key := fmt.Sprintf("%s:sum#%d", fnName(fn), k)
+			// is the sum compared with an addend, or sign-tested?
+			tested := false
+			var uses func(v ssa.Value, d int)
+			uses = func(v ssa.Value, d int) {
+				if d > 3 {
+					return
+				}
+				for _, r := range referrers(v) {
+					switch x := r.(type) {
+					case *ssa.BinOp:
+						switch x.Op {
+						case token.LSS, token.LEQ, token.GTR, token.GEQ:
+							other := x.Y
+							if x.Y == v {
+								other = x.X
+							}
+							if sameValue(other, add.X) || sameValue(other, add.Y) {
+								tested = true
+							}
+							if z, isC := constInt(other); isC && z == 0 {
+								tested = true // a sign test of the sum: judged exactly by R-overflow-signs
+							}
+						}
+					case *ssa.Store:
+						// kept in a local and read again
+						if al, ok := x.Addr.(*ssa.Alloc); ok && x.Val == v {
+							for _, r2 := range referrers(al) {
+								if ld, ok := r2.(*ssa.UnOp); ok && ld.Op == token.MUL {
+									uses(ld, d+1)
+								}
+							}
+						}
+					case *ssa.Phi:
+						uses(x, d+1)
+					}
+				}
+			}
+			uses(add, 0)
+			if tested {
+				c.S.OK("R-overflow-checked", key, c.Pos(add.Pos()), "the sum is tested against its addends")
+			} else {
+				c.S.Bad("R-overflow-checked", key, c.Pos(add.Pos()), fmt.Sprintf("%s adds two 64-bit numbers that both come from outside (stored value, command argument) and uses the sum without an overflow test: a counter near the end of the range wraps around silently", fnName(fn)))
+			}
+		}
+	}
+	// negation: -x overflows for the smallest int64; a negated outside number needs a dominating comparison of x with that
+	// constant (DECRBY k -9223372036854775808 must be refused, not turned into INCRBY by the same amount)
+	for _, fn := range c.SrcFuncs() {
+		if a8OutOfScope(c, fn) != "" {
+			continue
+		}
+		k := 0
+		for _, in := range instrsOf(fn) {
+			neg, ok := in.(*ssa.UnOp)
+			if !ok || neg.Op != token.SUB {
+				continue
+			}
+			bt, ok := neg.Type().Underlying().(*types.Basic)
+			if !ok || bt.Kind() != types.Int64 || !m.tainted[neg.X] {
+				continue
+			}
+			k++
+			n++
+			key := fmt.Sprintf("%s:negation#%d", fnName(fn), k)
+			guarded := false
+			for _, d := range fn.Blocks {
+				ifi, ok := d.Instrs[len(d.Instrs)-1].(*ssa.If)
+				if !ok {
+					continue
+				}
+				bo, ok := ifi.Cond.(*ssa.BinOp)
+				if !ok {
+					continue
+				}
+				for _, pair := range [][2]ssa.Value{{bo.X, bo.Y}, {bo.Y, bo.X}} {
+					if !sameValue(a8root(pair[0]), a8root(neg.X)) {
+						continue
+					}
+					if kc, isC := constInt(pair[1]); isC && kc <= -9223372036854775807 {
+						for _, s := range d.Succs {
+							if len(s.Preds) == 1 && (s == neg.Block() || s.Dominates(neg.Block())) {
+								guarded = true
+							}
+						}
+					}
+				}
+			}
+			if guarded {
+				c.S.OK("R-overflow-checked", key, c.Pos(neg.Pos()), "the operand is compared with the smallest int64 before it is negated")
+			} else {
+				c.S.Bad("R-overflow-checked", key, c.Pos(neg.Pos()), fmt.Sprintf("%s negates a 64-bit number that comes from the command line without excluding the smallest int64: its negation is itself, so the command runs with the wrong sign instead of being refused", fnName(fn)))
+			}
+		}
+	}
+	if n == 0 {
+		c.S.Trivial("R-overflow-checked", "none", "-", "no 64-bit addition of two outside numbers")
+	}
+}
